@@ -98,6 +98,7 @@ func runCheck(repo, contracts string, args []string, tier string, timeout time.D
 		tier = t
 	}
 	thorough := tier == "thorough"
+	thoroughTier = thorough
 	if thorough && timeout < 60*time.Second {
 		timeout = 60 * time.Second
 	}
@@ -294,6 +295,7 @@ func runCheck(repo, contracts string, args []string, tier string, timeout time.D
 	ev.Coverage["known_findings"] = knownLines
 	ev.Coverage["undecided_new"] = undecidedNew
 	ev.Coverage["subset_warnings"] = warnings
+	ev.Coverage["clauses_deferred_to_thorough_tier"] = skippedSlow
 	ev.Coverage["vacuity"] = map[string]interface{}{"functions_checked": len(results), "not_ok": vacuity, "rule": "requires + callee postconditions + invariants must be satisfiable together with reaching a return"}
 	if len(w.ContractDiff) > 0 {
 		ev.Coverage["contract_mirror_differs_from_repo"] = w.ContractDiff
